@@ -23,7 +23,7 @@ RULE = ("series pairs (and self comparison) x gamma, tau, delta, delta_factor x 
         "match, restart resets")
 GUARD = "psi None (as LocalConcurrences uses it)"
 
-KINDS = ["py.aff", "py.aff", "c.aff", "c.aff_compact", "lc"]
+KINDS = ["py.aff", "py.aff", "c.aff", "c.aff_compact", "lc", "lc.c"]
 
 
 def gen_cases(rng, tier):
@@ -41,7 +41,7 @@ def gen_cases(rng, tier):
                 "gamma": rng.choice([1, 0.5, 2]), "tau": tau, "delta": rng.choice([0, -0.5, -2 * tau]),
                 "delta_factor": rng.choice([1, 0.9, 0.5]), "penalty": rng.choice([None, 0, 0.05, 0.5]),
                 "window": rng.choice([None, None, 1, 2, 3]), "only_triu": bool(self_cmp and rng.random() < 0.6)}
-        if kind == "lc":
+        if kind in ("lc", "lc.c"):
             case["ops"] = [[rng.choice([1, 2, 3, None]), rng.choice([1, 2]), rng.random() < 0.6] for _ in range(rng.randint(1, 3))]
             if case["penalty"] is None:
                 case["penalty"] = 0
@@ -103,12 +103,14 @@ def impl_run(case):
     from dtaidistance.subsequence.localconcurrences import LocalConcurrences
     lc = LocalConcurrences(s1, None if case["self"] else s2, gamma=case["gamma"], tau=case["tau"], delta=case["delta"],
                            delta_factor=case["delta_factor"], only_triu=case["only_triu"], penalty=case["penalty"],
-                           window=case["window"], use_c=False)
+                           window=case["window"], use_c=(kind == "lc.c"))
     lc.align()
-    base = np.array(lc.wp, dtype=np.double)
+    use_c = kind == "lc.c"
+    # with the C engine the matrix lives in the compact layout: read it through wp_slice
+    base = np.array(lc.wp_slice() if use_c else lc.wp, dtype=np.double)
     hist = []
     for k, minlen, restart in case["ops"]:
-        before = np.array(lc._wp.data, dtype=np.double)
+        before = np.array(lc.wp_slice() if use_c else lc._wp.data, dtype=np.double)
         ms = []
         for m in lc.kbest_matches(k=k, minlen=minlen, restart=restart):
             ms.append([[int(a), int(b)] for a, b in m.path])
@@ -134,7 +136,7 @@ def judge(case, got, exp):
     g = got["ok"]
     ref = reference(case)
     r, c = len(case["s1"]), len(case["s2"])
-    if case["kind"] != "lc":
+    if case["kind"] not in ("lc", "lc.c"):
         m = g["m"]
         if len(m) != r + 1 or any(len(row) != c + 1 for row in m):
             return {"kind": "shape"}
